@@ -61,6 +61,22 @@ def check(run):
                 findings.append({"model_only": True, "id": cid, "input": r.get("input"), "origin": r.get("origin"), "outcome": r.get("outcome"),
                                  "what": "model/code outcome mismatch on malformed input"})
     total_cases = len(cases)
+    # growth rate: allocation volume of the frame decoder on input families of size n and 4n (a decoder that is quadratic in the
+    # input length "returns" but needs hours on a 1 MiB input); measured, deterministic, no wall-clock threshold
+    growth = []
+    if "harness" not in fails:
+        growth, gerr = fc.run_harness(run, "growth", 0)
+        if gerr:
+            broken.append(gerr)
+        elif not growth:
+            broken.append("harness-frame growth printed no record")
+    for g in growth:
+        if g.get("ratio", 0) > 2.0 * g.get("size_ratio", 4.0):
+            findings.append({"id": g["id"], "entry": "frame", "outcome": "superlinear", "family": g.get("family"),
+                             "alloc_small": g.get("alloc_small"), "alloc_big": g.get("alloc_big"), "ratio": round(g.get("ratio", 0), 1),
+                             "what": "frame decoder allocates %.1f times more on a %.1f times longer input of family '%s' (%d -> %d bytes allocated for %d -> %d input bytes): "
+                                     "superlinear in the input length" % (g.get("ratio", 0), g.get("size_ratio", 0), g.get("family"), g.get("alloc_small", 0),
+                                                                         g.get("alloc_big", 0), g.get("bytes_small", 0), g.get("bytes_big", 0))})
     # segments and decompressors (seg-builder's harness and model), CQL value decoders (cql-builder's)
     seg_n, cql_n = 0, 0
     try:
